@@ -694,7 +694,7 @@ PLANS = {
                      "non-trivial = at least one delivery and one fault"),
     "C12": Plan("msg", "TraceRenetMon", ["C12"], [("api", g_api)],
                 mc=[mc_job("server_api", "MC_Server", {"quick": ["MC_C12_q1.cfg"], "thorough": ["MC_C12_q1.cfg"]}, ["C12"], strict=False,
-                           cap_q=4000, cap_t=60000)],
+                           cap_q=2500, cap_t=60000)],
                 level="model_checking", assumptions=MSG_ASSUME,
                 rule="sequences of public API calls of RenetServer / RenetClient (table, status, traffic, undecodable packets, local clients): "
                      "every model state of the depth-5 call graph over two ids + seeded-random sequences up to 25 calls; all are non-trivial "
